@@ -628,6 +628,21 @@ def temporal_train_test_split(y, X=None, test_size=None, train_size=None, fh=Non
     ----------
     ..[1]  adapted from https://github.com/alkaline-ml/pmdarima/
     """
+    # a temporal split only makes sense for data ordered in time (and X aligned with
+    # y); without this, unsorted or empty data were split silently and arrays failed
+    # with unrelated errors
+    for series in (y, X):
+        if series is None:
+            continue
+        if not isinstance(series, (pd.Series, pd.DataFrame)):
+            raise TypeError(
+                f"`y` and `X` must be a pd.Series or pd.DataFrame, but found: "
+                f"{type(series)}"
+            )
+        check_time_index(series.index)
+    if X is not None:
+        check_equal_time_index(y, X)
+
     if fh is not None:
         if test_size is not None or train_size is not None:
             raise ValueError(
